@@ -442,10 +442,14 @@ impl<'a> Parser<'a> {
 
     /// Parses multi-select lists (e.g., "[foo, bar, baz]")
     fn parse_multi_list(&mut self) -> ParseResult {
-        Ok(Ast::MultiList {
-            offset: self.offset,
-            elements: self.parse_list(Token::Rbracket)?,
-        })
+        let offset = self.offset;
+        let elements = self.parse_list(Token::Rbracket)?;
+        if elements.is_empty() {
+            // "[ ]" is lexed as Lbracket, Rbracket (unlike "[]", the flatten operator).
+            let reason = ErrorReason::Parse("A multi-select list requires at least one expression".to_owned());
+            return Err(JmespathError::new(self.expr, offset, reason));
+        }
+        Ok(Ast::MultiList { offset, elements })
     }
 
     /// Parse a comma separated list of expressions until a closing token.
